@@ -148,8 +148,34 @@ def validate_stream(ctx, stream, vcases, plats, families=None):
     return st
 
 
+def run_impl_cases(cases, jobs=8):
+    """C.run_impl on slices of the case list in parallel subprocesses (every case is independent: own temp dir)"""
+    import concurrent.futures
+    if len(cases) < 64:
+        return C.run_impl("c13_impl.py", {"cases": cases})
+    n = (len(cases) + jobs - 1) // jobs
+    parts = [cases[i:i + n] for i in range(0, len(cases), n)]
+    with concurrent.futures.ThreadPoolExecutor(len(parts)) as ex:
+        outs = list(ex.map(lambda part: C.run_impl("c13_impl.py", {"cases": part}), parts))
+    return [r for o in outs for r in o]
+
+
+def simplicity(f):
+    """replays: plain short ASCII cases first (the order of the failures list decides which case is written out)"""
+    text = repr(f.get("case"))
+    return (sum(1 for ch in text if not (" " <= ch <= "~")) + text.count("\\"), len(text))
+
+
 def run(ctx: C.Ctx):
+    import time
     rng = ctx.rng
+    t0 = time.time()
+    phase = {}
+
+    def lap(name):
+        nonlocal t0
+        phase[name] = round(time.time() - t0, 2)
+        t0 = time.time()
     thorough = ctx.tier == "thorough"
     reg = C.run_impl("c13_impl.py", {"cases": [["registry"]]})[0]
     plats = reg["platforms"]
@@ -173,6 +199,7 @@ def run(ctx: C.Ctx):
     vcases = [["validate", p, b] for p in pcands for b in bcands]
     vstat = validate_stream(ctx, "registry x simple near-misses", vcases, plats)
 
+    lap("validate: registry x simple near-misses")
     # ---------------- near-miss names, by the loosening of the lookup they would slip through (harness/c13_names.py)
     # boards: every family for every registered id, against every real platform ...
     fam_count = {}
@@ -202,6 +229,7 @@ def run(ctx: C.Ctx):
     ncases += [["validate", p, v] for v in rng.sample(sorted(board_nm), 6000 if thorough else 1500) for p in pn_sample[:4]]
     nstat = validate_stream(ctx, "near-miss families", ncases, plats, families=(board_nm, plat_nm))
 
+    lap("validate: near-miss families")
     # ---------------- names the module itself knows: members of every module-level container of pio.py and the
     # string constants of its source (an alias table, a second index, a default name would be found here)
     harvested = C.run_impl("c13_impl.py", {"cases": [["harvest"]]})[0]
@@ -211,6 +239,7 @@ def run(ctx: C.Ctx):
     hstat = validate_stream(ctx, "strings harvested from pio.py", hcases, plats)
     n_hv_unreg = len([h for h in hnames if h not in all_boards and h not in plats])
 
+    lap("validate: harvested strings")
     # ---------------- cases for write_project (inside the guard)
     wcases = []
     pairs = [(p, b) for p, bs in plats.items() for b in sorted(bs)]
@@ -288,7 +317,7 @@ def run(ctx: C.Ctx):
         elif i % 3 == 2:
             pre = ["prior", "int y;", "COM7", ["Servo"]] + list(rng.choice(pairs))
         wbad.append(["write", "int x;", rng.choice(["COM1", "/dev/ttyUSB0"]), p, b, rng.choice([["Servo"], None, ["a", "b"]]), pre, i % 5])
-    wres = C.run_impl("c13_impl.py", {"cases": wcases + wbad})
+    wres = run_impl_cases(wcases + wbad)
     for c, r in zip(wcases, wres):
         check_write(ctx, c, r)
     for c, r in zip(wbad, wres[len(wcases):]):
@@ -299,11 +328,14 @@ def run(ctx: C.Ctx):
             if m[0] != 1 or (r["status"] == "ValueError" and r.get("kind") not in (0, m[1])) or r["status"] != "ValueError":
                 ctx.disagree("write_project on an unregistered pair: model vs implementation", c, m, {k: r.get(k) for k in ("status", "kind")})
 
+    lap("write_project: implementation runs + oracles")
     # ---------------- model correspondence for the INI renderer (if the model has it)
     n_ini = ini_correspondence(ctx, wcases, wres)
+    lap("write_project: model correspondence")
     # ---------------- the model on its whole domain (outside the guard: correspondence only, no oracle)
     ini_dist = ini_model_validation(ctx, pairs, all_boards)
     n_extra = sum(ini_dist.get(k, 0) for k in ("hostile_write_cases", "reader_texts", "libsec_cases", "envname_cases"))
+    lap("model on its whole domain (outside the guard)")
 
     # ---------------- known findings: replay the listed witnesses
     for f in ctx.findings:
@@ -341,7 +373,7 @@ def run(ctx: C.Ctx):
                          "lib_lists_with_duplicates": sum(1 for c in wcases if c[5] and len(set(c[5])) < len(c[5])),
                          "lib_lists_with_empties": sum(1 for c in wcases if c[5] and "" in c[5]),
                          "lib_lists_over_8": sum(1 for c in wcases if c[5] and len(c[5]) > 8),
-                         "ini_model_validation": ini_dist},
+                         "ini_model_validation": ini_dist, "phase_seconds (informative only)": phase},
         "exhaustive": False,
         "guard": "port: str.isprintable() and no leading/trailing blank; library names: printable, no blank padding, not starting with '#' or ';' (outside: known findings F-C13-*)",
         "unmodelled": ["PlatformIO's own INI reader (configparser(interpolation=None) stands for 'a standard INI parser')",
@@ -354,6 +386,7 @@ def run(ctx: C.Ctx):
                        "non-str arguments; library arguments that are not lists (the signature allows any iterable, the statement says lists)"],
         "trusted_base": C.COMMON_TRUSTED + ["harness/impl/c13_impl.py (calls pio.validate_platform_board / write_project in a scratch dir, reads back with configparser)"],
     })
+    ctx.failures.sort(key=simplicity)
     ctx.assumptions += ["CPython configparser(interpolation=None) is the reference INI reader", "registry tables are those of the imported module (translator reads them after import)",
                         "'registered' is membership in SUPPORTED_PLATFORMS as imported; the inventory of pio.py (names read by validate_platform_board / write_project, module-level data) is taken from byte code and module dict after import"]
 
@@ -484,7 +517,7 @@ def ini_model_validation(ctx, pairs, all_boards):
     for i, (port, libs) in enumerate(confs):
         pl, b = pairs[i % len(pairs)] if i % 3 else ("atmelavr", "uno")
         wc.append(["write", "int x;", port, pl, b, libs, False])
-    wr = C.run_impl("c13_impl.py", {"cases": wc})
+    wr = run_impl_cases(wc)
     outs = ctx.model([[1, c[2], c[3], c[4], list(c[5] or [])] for c in wc])
     n_err = compare_write(ctx, "outside guard", wc, wr, outs)
     dist["hostile_write_cases"] = len(wc)
@@ -492,7 +525,7 @@ def ini_model_validation(ctx, pairs, all_boards):
     dist["hostile_write_outside_guard"] = sum(1 for c in wc if not (in_guard_port(c[2]) and all(in_guard_lib(n) for n in (c[5] or []))))
     # (b) the reader alone on INI-like texts
     texts = ini_texts(rng, 8000 if thorough else 1500)
-    rr = C.run_impl("c13_impl.py", {"cases": [["iniread", t] for t in texts]})
+    rr = run_impl_cases([["iniread", t] for t in texts])
     mo = ctx.model([[4, t] for t in texts])
     n_ok = 0
     for t, r, m in zip(texts, rr, mo):
